@@ -3,6 +3,7 @@ package sut
 
 import (
 	"encoding/json"
+	"sync"
 
 	"github.com/trustbloc/sidetree-go/pkg/api/protocol"
 	"github.com/trustbloc/sidetree-go/pkg/document"
@@ -51,6 +52,28 @@ func NewStack(p protocol.Protocol, opts ...operationparser.Option) *Stack {
 	parser := operationparser.New(p, opts...)
 	dc := doccomposer.New()
 	return &Stack{P: p, Parser: parser, Composer: dc, Applier: operationapplier.New(p, parser, dc)}
+}
+
+var (
+	stackMu    sync.Mutex
+	stackCache = map[string]*Stack{}
+)
+
+// SharedStack returns one long-lived stack per protocol configuration (per worker process), so that the same parser /
+// composer / applier instances serve many unrelated cases: state wrongly carried from one call to the next becomes visible.
+func SharedStack(p protocol.Protocol) *Stack {
+	b, _ := json.Marshal(p)
+	stackMu.Lock()
+	defer stackMu.Unlock()
+	if s, ok := stackCache[string(b)]; ok {
+		return s
+	}
+	if len(stackCache) > 512 {
+		stackCache = map[string]*Stack{}
+	}
+	s := NewStack(p)
+	stackCache[string(b)] = s
+	return s
 }
 
 // ToPatches converts generic patches to the library's patch type by the
